@@ -5,9 +5,10 @@
 d="$(realpath "$1")"; id=$(basename "$d"); wt=/tmp/wt-confirm-$id-$$
 git -C /repo worktree add --detach -q "$wt" HEAD || exit 9
 cd "$wt"
-demo_cmd() { PYTHONPATH="$wt" THAILINT_VERIF= timeout 900 /venv/bin/python "$d/demo.py" > "$1" 2>&1; echo $?; }
+cp "$d/demo.py" "$wt/demo_seed.py"
+demo_cmd() { ( cd "$wt" && env -u THAILINT_VERIF PYTHONPATH="$wt" THAILINT_TREE="$wt" timeout 900 /venv/bin/python "$wt/demo_seed.py" > "$1" 2>&1; echo $? ); }
 r0=$(demo_cmd /tmp/confirm-$id-pristine.log)
-applies=yes; git apply "$d/patch.diff" || applies=no
+applies=yes; git apply --exclude=demo_seed.py "$d/patch.diff" || applies=no
 r1=$(demo_cmd /tmp/confirm-$id-mutated.log)
 PYTHONPATH="$wt" timeout 3000 /venv/bin/python -m pytest -q -p no:cacheprovider --timeout=900 -x --co -q >/dev/null 2>&1
 PYTHONPATH="$wt" timeout 3000 /venv/bin/python -m pytest -q -p no:cacheprovider --timeout=900 --junitxml=/tmp/confirm-$id.xml > /tmp/confirm-$id-tests.log 2>&1
@@ -31,4 +32,5 @@ res = {"patch_applies": applies == "yes", "demo_exit_pristine": int(r0), "demo_e
 json.dump(res, open(f"{d}/confirm.json", "w"), indent=1)
 print(id_, res["confirmed"], res["demo_exit_pristine"], res["demo_exit_mutated"], len(broken), tail)
 PY
+[ -n "$KEEP_LOGS" ] && cp /tmp/confirm-$id-pristine.log /tmp/confirm-$id-mutated.log "$d/" 2>/dev/null
 cd /; git -C /repo worktree remove --force "$wt"; rm -f /tmp/confirm-$id*.log /tmp/confirm-$id.xml
